@@ -26,7 +26,7 @@ def gen_version(rnd: random.Random, *, suffix_p: float = 0.35, epoch_p: float = 
     segs = SEGS if rnd.random() < 0.9 else SEGS + [11, 19, 20, 99, 100, 2024]
     s = ".".join(str(rnd.choice(segs)) for _ in range(n))
     if rnd.random() < epoch_p:
-        s = f"{rnd.choice([1, 2])}!{s}"
+        s = f"{rnd.choice([1, 2, 1, 2, 10, 20, 100])}!{s}"
     if rnd.random() < suffix_p:
         k = rnd.random()
         if k < 0.4:
@@ -74,7 +74,7 @@ def nonnorm(rnd: random.Random, v: str) -> str:
 
 
 def version_pool(rnd: random.Random, n: int | None = None) -> list[str]:
-    n = n or rnd.randint(6, 16)
+    n = n or (rnd.randint(6, 16) if rnd.random() < 0.9 else rnd.randint(24, 40))  # some pools allow unions of 9-16 ranges
     pool: list[str] = []
     while len(pool) < n:
         v = gen_version(rnd)
@@ -159,7 +159,7 @@ def hostile_leaf(rnd: random.Random, pool: list[str]) -> str:
         i1, i2 = rnd.choice(["<", "<="]), rnd.choice([">", ">="])
         return f">={a},{i1}{b}||{i2}{b},<{c}"
     if k < 0.7 and len(vs) >= 6:
-        n = rnd.randint(3, min(8, len(vs) // 2))
+        n = rnd.randint(3, min(16, len(vs) // 2))
         pts = sorted(rnd.sample(vs, 2 * n))
         parts = []
         for i in range(0, 2 * n, 2):
@@ -256,17 +256,27 @@ class LeafError(Exception):
     """A leaf could not be parsed (belongs to C17, not to the algebra properties)."""
 
 
-def build(t: list, on_node=None):
-    """Evaluate a tree through the real API. on_node(tree, value) is called for every node."""
+def build(t: list, on_node=None, shared: dict | None = None):
+    """Evaluate a tree through the real API. on_node(tree, value) is called for every node.
+
+    shared: when given, equal leaves of one case evaluate to the *same object* (users keep and reuse
+    specifier objects; aliasing between operands is part of what is reachable)."""
     from dep_logic.specifiers import (AnySpecifier, EmptySpecifier, RangeSpecifier,
                                       from_specifierset, parse_version_specifier)
 
     kind = t[0]
     if kind == "leaf":
+        if shared is not None and t[1] in shared:
+            v = shared[t[1]]
+            if on_node is not None:
+                on_node(t, v)
+            return v
         try:
             v = parse_version_specifier(t[1])
         except Exception as e:
             raise LeafError(f"{t[1]!r}: {type(e).__name__}: {e}") from e
+        if shared is not None:
+            shared[t[1]] = v
     elif kind == "fss":
         try:
             v = from_specifierset(SpecifierSet(t[1]))
@@ -279,11 +289,11 @@ def build(t: list, on_node=None):
     elif kind == "empty":
         v = EmptySpecifier()
     elif kind == "not":
-        v = ~build(t[1], on_node)
+        v = ~build(t[1], on_node, shared)
     elif kind == "and":
-        v = build(t[1], on_node) & build(t[2], on_node)
+        v = build(t[1], on_node, shared) & build(t[2], on_node, shared)
     elif kind == "or":
-        v = build(t[1], on_node) | build(t[2], on_node)
+        v = build(t[1], on_node, shared) | build(t[2], on_node, shared)
     else:
         raise ValueError(kind)
     if on_node is not None:
@@ -302,3 +312,22 @@ def tree_text(t: list) -> str:
     if k == "not":
         return f"~({tree_text(t[1])})"
     return f"({tree_text(t[1])} {'&' if k == 'and' else '|'} {tree_text(t[2])})"
+
+
+HASH_MODULUS = 2 ** 61 - 1  # CPython hashes non-negative ints modulo this prime
+
+
+def hash_twin(v: str) -> str:
+    """A different version whose hash equals hash(Version(v)): one release component moved by the
+    int-hash modulus.  Hostile operand for anything keyed on hash() without confirming ==."""
+    ver = Version(v)
+    rel = list(ver.release)
+    rel[0] += HASH_MODULUS  # the first component is never a stripped trailing zero
+    out = (f"{ver.epoch}!" if ver.epoch else "") + ".".join(map(str, rel))
+    if ver.pre:
+        out += f"{ver.pre[0]}{ver.pre[1]}"
+    if ver.post is not None:
+        out += f".post{ver.post}"
+    if ver.dev is not None:
+        out += f".dev{ver.dev}"
+    return out
